@@ -341,3 +341,33 @@ pub fn cover_chain<S: Src>(s: &mut S) {
     cover!(s, total >= 2, "two or more covering entries");
     std::mem::forget(map);
 }
+
+/// C01/C18: `entry(p)` as an observer: Occupied iff the key is stored, `Entry::get` / `key` and the
+/// handle-level `get` / `key` return the stored value / stored representation (the argument's
+/// bytes for a vacant entry); the map is unchanged when the entry is dropped.
+pub fn entry_obs<S: Src, const N: usize>(s: &mut S) {
+    use prefix_trie::map::Entry;
+    let (nodes, r) = pre::<S, N>(s);
+    let mut map = mk_map_simple(&nodes, &r);
+    let p = any_p(s);
+    let at = lookup(&nodes, &r, &p);
+    {
+        let e = map.entry(p);
+        check!(s, matches!(e, Entry::Occupied(_)) == at.is_some(), "C01:entry occupied iff key stored");
+        check!(s, e.get().copied() == at.and_then(|i| nodes[i].1), "C01:Entry::get");
+        check!(s, *e.key() == at.map(|i| nodes[i].0).unwrap_or(p), "C18:Entry::key is the stored representation (or the argument when vacant)");
+        match e {
+            Entry::Occupied(o) => {
+                check!(s, Some(*o.key()) == at.map(|i| nodes[i].0) && Some(*o.get()) == at.and_then(|i| nodes[i].1), "C01,C18:OccupiedEntry::{key,get}");
+            }
+            Entry::Vacant(v) => {
+                check!(s, *v.key() == p, "C18:VacantEntry::key is the argument");
+            }
+        }
+    }
+    check!(s, unchanged_except(s, &map, &nodes, None) && map.len() == count(&nodes, &r), "C01,C04:dropping an entry handle leaves the map unchanged");
+    cover!(s, at.is_some() && p.0 != nodes[at.unwrap()].0 .0, "occupied, argument with other host bits");
+    cover!(s, at.is_none() && node_at(&nodes, &r, &p).is_some(), "vacant on a value-less node");
+    cover!(s, at.is_none() && node_at(&nodes, &r, &p).is_none(), "vacant without a node");
+    std::mem::forget(map);
+}
